@@ -141,6 +141,27 @@ def shard(arg):
         rec.evals += 100
         rec.classes["bban-token"] += 1
         rec.nt.add(hash((cc, b)))
+    # block-collision BBANs (equal weighted contributions of two aligned k-digit blocks, every k)
+    from ..lib import IBAN as _I, SchwiftyException as _S
+    for k, b in g.block_collision_bbans(cc, rng, per_k=3 if tier == "quick" else 12):
+        want = canonical_digits(cc, b)
+        inp = {"cc": cc, "bban": b, "origin": f"block-collision:k={k}"}
+        try:
+            got = str(_I.from_bban(cc, b))
+        except _S as e:
+            got = f"{type(e).__name__}: {e}"
+        except Exception as e:  # noqa: BLE001
+            got = f"crash {type(e).__name__}: {e}"
+        if got != cc + want + b:
+            rec.fail("from_bban_rejects|block-collision" if ":" in got else "from_bban_wrong_digits|block-collision", "from_bban_valid", inp,
+                     cc + want + b, got)
+        try:
+            _I(cc + want + b)
+        except _S as e:
+            rec.fail("pairs|block-collision|canonical_rejected", "exactly_one_pair", {**inp, "digits": want}, True, f"{type(e).__name__}")
+        rec.evals += 2
+        rec.classes["bban-block-collision"] += 1
+        rec.nt.add(hash((cc, b)))
     # structured BBANs (prefix / zero run / suffix): assembling gives the reference digits and a valid IBAN; the canonical pair
     # and its neighbours are probed instead of all 100 (the sweep above covers the pair dimension)
     from ..lib import IBAN, SchwiftyException
@@ -183,4 +204,4 @@ def run(ctx):
                        "is accepted by IBAN().")
     ctx.assumptions = ["BBAN sampling per country is random; the pair dimension is exhaustive"]
     ctx.pmap(shard, [(cc, ctx.seed, ctx.tier) for cc in o.countries()])
-    ctx.require_classes("bban", "bban-alias-adjacent", "bban-with-congruent-alias", "bban-zero-run", "bban-token")
+    ctx.require_classes("bban", "bban-alias-adjacent", "bban-with-congruent-alias", "bban-zero-run", "bban-token", "bban-block-collision")
